@@ -9,7 +9,7 @@
    model does.  A dict is an association list with one entry per key. *)
 From Coq Require Import List Arith ZArith Bool.
 From BiomV Require Import Base.Tree Base.ListUtil Base.Matrix.
-From BiomV Require Export Model.Table Model.Orient.
+From BiomV Require Export Model.Table Model.Orient Model.Concat.
 Import ListNotations.
 
 Definition rbind {A B} (r : result A) (f : A -> result B) : result B :=
@@ -46,6 +46,9 @@ Definition set_diff (a b : idset) : idset := filter (fun y => negb (zmem y b)) a
 Definition set_nonempty (s : idset) : bool := match s with [] => false | _ => true end.   (* truth value *)
 Definition set_iter (s : idset) : list Z := s.                              (* for i in s *)
 Definition py_sorted (s : idset) : list Z := isort s.                       (* sorted(s), on order preserving codes *)
+(* list(s): Python leaves the order open; the sorted one is taken (Model/Concat.v does the same, and
+   the sort_order that follows makes the choice unobservable) *)
+Definition set_to_list (s : idset) : list Z := isort s.
 
 (* ---- the dict id -> metadata entry *)
 Definition mddict := list (Z * Tree).
@@ -54,6 +57,9 @@ Definition dict_set (m : mddict) (k : Z) (v : Tree) : mddict :=             (* m
   if existsb (fun p => Z.eqb k (fst p)) m
   then map (fun p => if Z.eqb k (fst p) then (k, v) else p) m
   else m ++ [(k, v)].
+(* m[k]; the KeyError of an absent key is not modelled (None is returned, as Model/Concat.v md_get does):
+   every id asked for was entered by the first loop *)
+Definition dict_getitem (m : mddict) (k : Z) : Tree := md_get m k.
 
 (* ---- lists *)
 Definition list_copy {A} (l : list A) : list A := l.                        (* l[:] / list(l) *)
@@ -65,3 +71,45 @@ Definition tb_ids (a : axis) (t : table) : list Z := ids a t.               (* .
 (* .metadata(i, axis=a) for an id of the table: None when the axis has no metadata *)
 Definition tb_metadata_of (a : axis) (t : table) (i : Z) : Tree :=
   match md_of a t i with Some m => m | None => md_none end.
+Definition list_append {A} (l : list A) (x : A) : list A := l ++ [x].        (* l.append(x) *)
+Definition list_extend {A} (l l2 : list A) : list A := l ++ l2.              (* l.extend(l2) *)
+Definition list_nonempty {A} (l : list A) : bool := match l with [] => false | _ => true end.   (* truth value *)
+Definition list_getitem {A} (l : list A) (i : nat) : result A :=            (* l[i]: IndexError *)
+  match nth_error l i with Some x => ROk x | None => RErr E_OTHER end.
+Definition np_concatenate (ls : list (list Z)) : list Z := concat ls.       (* np.concatenate *)
+Definition ids_all_eq (a b : list Z) : bool := list_eqb Z.eqb a b.          (* (a == b).all(), a and b of one length *)
+
+(* ---- metadata of an axis: None or one entry per id *)
+Definition optmd_is_none (o : option (list Tree)) : bool := match o with None => true | Some _ => false end.
+Definition list_of_optmd (o : option (list Tree)) : result (list Tree) :=   (* list(md): TypeError on None *)
+  match o with Some l => ROk l | None => RErr E_TYPE end.
+Definition list_extend_opt (l : list Tree) (o : option (list Tree)) : result (list Tree) :=   (* l.extend(md) *)
+  match o with Some l2 => ROk (l ++ l2) | None => RErr E_TYPE end.
+Definition none_list (n : nat) : list Tree := repeat md_none n.             (* [None] * n *)
+
+(* ---- matrices (dense rows, Base/Matrix.v) *)
+Definition zero_matrix (s : nat * nat) : matrix := repeat (zero_row (snd s)) (fst s).   (* csr_matrix((r, c)) *)
+Fixpoint zip_app (a b : matrix) : matrix :=
+  match a, b with r :: a', s :: b' => (r ++ s) :: zip_app a' b' | _, _ => [] end.
+(* vstack / hstack of a list of blocks (of one width / one height); ValueError on the empty list *)
+Definition apply_stack (f : stackfn) (ms : list matrix) : result matrix :=
+  match ms with
+  | [] => RErr E_VALUE
+  | m :: r => ROk (match f with VStack => concat ms | HStack => fold_left zip_app r m end)
+  end.
+Definition apply_getter (g : getter) (s : nat * nat) : result nat :=        (* itemgetter(i)(shape) *)
+  match g with Getter 0 => ROk (fst s) | Getter 1 => ROk (snd s) | _ => RErr E_OTHER end.
+
+(* ---- the table object, continued *)
+Definition tb_matrix_data (t : table) : matrix := mat t.                    (* .matrix_data *)
+Definition tb_shape (t : table) : nat * nat := (length (mat t), nsamp t).   (* .shape of a coherent table *)
+Definition tb_type (t : table) : Z := ttype t.                              (* .type *)
+Definition tb_metadata (a : axis) (t : table) : option (list Tree) := mds a t.   (* .metadata(axis=a) *)
+(* Table(data, observation_ids, sample_ids, observation_metadata, sample_metadata, type=ty): the
+   constructor normalises the metadata (Model/Orient.v ctor_md) *)
+Definition tb_new (m : matrix) (oi si : list Z) (om sm : option (list Tree)) (ty : Z) : table :=
+  mkT oi si m (ctor_md om) (ctor_md sm) ty.
+(* .sort_order(order, axis=a): Model/Orient.v sort_order_cols on the sample axis, through the
+   transposed table on the other *)
+Definition tb_sort_order (a : axis) (order : list Z) (t : table) : table :=
+  match a with Samp => sort_order_cols order t | Obs => flip (sort_order_cols order (flip t)) end.
